@@ -21,3 +21,25 @@ package requester
 //@   atcall net.Conn).Write before: assert @C15: defined(validated) && nameErr == nil
 //@   ensures @C15: true
 //@   checks structure
+
+// ---------------- C15: the DNS-over-TLS framing (two-octet length prefix) ----------------
+// "every encoder is inverted exactly by its decoder": sendLoop writes each message as its 16-bit length followed by
+// exactly that many bytes; recvLoop must hand on exactly the `length` bytes that follow each prefix, however the
+// transport fragments them - the body is read with io.ReadFull into a buffer of its own of exactly that length (a
+// single Read may return fewer bytes, the rest would then be taken for the next prefix), and that buffer is what is queued.
+//@ import io "io"
+//@ func (c *TLSPacketConn) recvLoop(conn net.Conn) error
+//@   atcall io.ReadFull before: assert @C15: len(arg1) == length && fresh(arg1)
+//@   atcall io.ReadFull before: snap body := arg1
+//@   atcall QueueIncoming before: assert @C15: defined(body) && arg1 == body && len(arg1) == length
+//@   ensures @C15: true
+//@   checks structure
+//@ loop 1:
+//@   invariant true
+//@ func (c *TLSPacketConn) sendLoop(conn net.Conn) error
+//@   atcall binary.Write before: assert @C15: length == len(p)
+//@   atcall Writer).Write before: assert @C15: arg1 == p
+//@   ensures @C15: true
+//@   checks structure
+//@ loop 1:
+//@   invariant true
